@@ -461,6 +461,10 @@ WORD_PARTS = ['a', 'b', 'x', 'Z', '_', '_', '0', '1', '9', 'é', 'я', 'λ', '\u
 def word_expect(eng, w):
     """transcription of the keyword rules of the language reference"""
     if w.startswith('__'):
+        # theorem C16.keywords: rejected at its first character - provided no operator symbol of the table is a
+        # prefix of the word (a custom table with an operator `_` or `__eq` lexes it as operator tokens)
+        if any(w.startswith(o) for o in list(eng.ops) + ([eng.nvo] if eng.nvo else [])):
+            return None
         return ('err', '_', 0)
     if w in eng.ops:
         return ('toks', [tok('OP', w, 0, w)])
